@@ -4,7 +4,7 @@ from pw_verif.props._machine import run_program_case, worker_init  # noqa: F401
 
 PROP = "C02"
 LEVEL = "exploration"
-BUDGET = {"quick": 640, "thorough": 8000}
+BUDGET = {"quick": 800, "thorough": 8000}
 MIN_PER_SHARD = 10
 RULE = (
     "Worlds/layouts/states as in C01 (entangled and mixed blocks at every level). Programs of 1-5 steps drawn "
@@ -32,7 +32,8 @@ def strategy(tier):
     mix = ["struct", "struct", "struct", "trace_out", "trace_out", "op", "comp", "kraus", "measure", "resize"]
     return st.one_of(S.program_case(mix, max_steps=5), S.program_case(mix, max_steps=5), S.program_case(mix, max_steps=5),
                      S.lifecycle_case(tail_kinds=("struct", "trace_out", "resize", "op"), max_tail=2),
-                     S.survivor_case(touches=("resize", "fockop", "trace_out", "reorder", "measure"), max_touch=2, finals=("trace_out", "reorder")))
+                     S.survivor_case(touches=("resize", "fockop", "trace_out", "reorder", "measure"), max_touch=2, finals=("trace_out", "reorder")),
+                     S.survivor_case(touches=("resize", "fockop", "multi"), max_touch=2, finals=("trace_out", "reorder", "trace_out")))
 
 
 def run_case(case):
